@@ -2,8 +2,11 @@ package tccrun
 
 import (
 	"encoding/hex"
+	"encoding/json"
 	"fmt"
 	"math"
+	"math/big"
+	"os"
 	"reflect"
 
 	"seata.apache.org/seata-go/pkg/protocol/branch"
@@ -246,6 +249,36 @@ func Run(args map[string]string) {
 		hutil.WriteJSON(args["out"], out)
 		return
 	}
+	if replay := hutil.ArgStr(args, "replay", ""); replay != "" {
+		// re-run one recorded case: a phase-two request is self-contained; a prepare is rebuilt as a
+		// reflect.StructOf value from its described fields when they are of simple kinds
+		var rc struct {
+			Kind string          `json:"kind"`
+			Case json.RawMessage `json:"case"`
+		}
+		if b, err := os.ReadFile(replay); err == nil && json.Unmarshal(b, &rc) == nil {
+			if rc.Kind == "q" {
+				var q Phase2Case
+				if json.Unmarshal(rc.Case, &q) == nil {
+					q.Events, q.Oracle, q.Outcome, q.Detail = nil, "", "", ""
+					runPhase2(&q)
+					out.Phase2 = append(out.Phase2, q)
+				}
+			} else {
+				var pc PrepareCase
+				if json.Unmarshal(rc.Case, &pc) == nil {
+					if param, ok := rebuildParam(&pc); ok {
+						pc.Events, pc.Oracle, pc.Outcome, pc.Detail = nil, "", "", ""
+						pc.Fields, pc.IsStruct = describeFields(param)
+						runPrepare(&pc, param)
+						out.Prepares = append(out.Prepares, pc)
+					}
+				}
+			}
+		}
+		hutil.WriteJSON(args["out"], out)
+		return
+	}
 	rng := hutil.NewRng(seed)
 	for i := 0; i < n; i++ {
 		r := rng.Fork(uint64(i))
@@ -307,4 +340,63 @@ func Run(args map[string]string) {
 		}
 	}
 	hutil.WriteJSON(args["out"], out)
+}
+
+// rebuildParam reconstructs a parameter from the described fields of a recorded prepare case
+// (exported fields of kind int / float / string / bool / []byte; nil and non-struct shapes directly)
+func rebuildParam(pc *PrepareCase) (interface{}, bool) {
+	if !pc.IsStruct {
+		if pc.Shape == "nil" {
+			return nil, true
+		}
+		return 5, true
+	}
+	var fs []reflect.StructField
+	var vals []reflect.Value
+	for i, f := range pc.Fields {
+		if !f.Exported {
+			continue
+		}
+		var v reflect.Value
+		switch f.Value.T {
+		case "int":
+			n, ok := new(big.Int).SetString(f.Value.Z, 10)
+			if !ok {
+				return nil, false
+			}
+			if n.IsInt64() {
+				v = reflect.ValueOf(n.Int64())
+			} else {
+				v = reflect.ValueOf(n.Uint64())
+			}
+		case "flt":
+			m, _ := new(big.Float).SetString(f.Value.Z)
+			x, _ := m.Float64()
+			v = reflect.ValueOf(math.Ldexp(x, f.Value.E))
+		case "str":
+			b, _ := hex.DecodeString(f.Value.H)
+			v = reflect.ValueOf(string(b))
+		case "bytes":
+			b, _ := hex.DecodeString(f.Value.H)
+			v = reflect.ValueOf(b)
+		case "bool":
+			v = reflect.ValueOf(f.Value.B)
+		case "nil":
+			v = reflect.ValueOf([]byte(nil))
+		default:
+			return nil, false
+		}
+		sf := reflect.StructField{Name: fmt.Sprintf("F%d", i), Type: v.Type()}
+		if f.HasTag {
+			tag, _ := hex.DecodeString(f.Tag)
+			sf.Tag = reflect.StructTag(fmt.Sprintf("tccParam:%q", string(tag)))
+		}
+		fs = append(fs, sf)
+		vals = append(vals, v)
+	}
+	st := reflect.New(reflect.StructOf(fs)).Elem()
+	for i, v := range vals {
+		st.Field(i).Set(v)
+	}
+	return st.Interface(), true
 }
